@@ -294,6 +294,11 @@ def cases(tier, seed):
 # spellings at the edge of the accepted language (refused today, or accepted in some form): if a change of the grammar
 # lets one through, its output must still be well-formed
 NEAR_MISS_TEXTS = [
+    # long generated lines (well over 255 characters) that carry the statement separator of BASIC09 - blank, backslash,
+    # blank - inside a literal, a comment, a DATA item
+    '10 PRINT "LEFT \\ RIGHT";A;B;C;D;E;F;G;H;I;J;K;L', '10 Z=INT(A)+INT(B)+INT(C)+INT(D)+INT(E)+INT(F)+INT(G)+INT(H)+INT(I):REM A \\ B',
+    '10 REM ' + "-" * 130 + " \\ " + "=" * 130, '10 A$="' + "X" * 120 + " \\ " + "Y" * 120 + '":PRINT A$;"Q \\ R"',
+    '10 DATA ' + ",".join(["A \\ B"] * 40), '10 PRINT ' + ";".join(['STR$(A)+" \\ "'] * 12),
     '10 DATA SIZE 5" DISK,PLAIN', '10 DATA JOE "KING" SMITH', '10 DATA A"B', '10 DATA "A"B', '10 DATA "A""B"', "10 DATA A'B", "10 DATA A:B",
     '10 DATA "A,B', '10 DATA X"', '10 READ A$\n20 DATA 5" ,X', '10 PRINT "A""B"', '10 PRINT "A"B"C"', '10 A$="A"+"B""', "10 PRINT 'X",
     '10 REM "', "10 ' \"", '10 INPUT "A"";B', '10 INPUT "A";"B";C', '10 LINE INPUT "A""B";C$', '10 HPRINT(1,2),"A""', '10 PLAY "A"+"B"""',
